@@ -21,11 +21,13 @@ DAG_FLAGS = ["optimize_with_safe_paths", "optimize_with_safe_sequences", "optimi
              "optimize_with_subpath_constraints_as_safe_sequences", "optimize_with_safety_as_subpath_constraints",
              "optimize_with_safety_from_largest_antichain"]
 KFD_FLAGS = ["optimize_with_greedy", "optimize_with_flow_safe_paths"]
-MFD_FLAGS = ["use_min_gen_set_lowerbound", "use_subgraph_scanning_lowerbound", "optimize_with_guessed_weights"]
+MFD_FLAGS = ["use_min_gen_set_lowerbound", "use_subgraph_scanning_lowerbound", "optimize_with_guessed_weights",
+             "use_min_gen_set_lowerbound_partition_constraints"]
 CYC_FLAGS = ["optimize_with_safe_sequences", "optimize_with_safe_sequences_allow_geq_constraints",
              "optimize_with_safe_sequences_fix_via_bounds", "optimize_with_safe_sequences_fix_zero_edges",
              "optimize_with_safety_as_subset_constraints", "optimize_with_max_safe_antichain_as_subset_constraints"]
-MFDC_FLAGS = ["use_min_gen_set_lowerbound", "optimize_with_given_weights"]
+# the key the code reads for the given-weights pre-solve is "optimize_with_guessed_weights" (both classes)
+MFDC_FLAGS = ["use_min_gen_set_lowerbound", "optimize_with_guessed_weights", "add_min_gen_set_to_given_weights"]
 
 
 def flags_for(name):
@@ -72,6 +74,15 @@ def vectors(name, tier, rng):
     if not name.endswith("Cycles"):
         allon["optimize_with_safe_sequences"] = False
     vs.append(("all-on", allon))
+    # sub-options that only act together with their parent option
+    if name == "MinFlowDecomp":
+        vs.append(("min-gen-set+partition-constraints", dict(off, use_min_gen_set_lowerbound=True, use_min_gen_set_lowerbound_partition_constraints=True)))
+        vs.append(("min-gen-set+partition-constraints(len1,limit1)", dict(off, use_min_gen_set_lowerbound=True, use_min_gen_set_lowerbound_partition_constraints=True,
+                   use_min_gen_set_lowerbound_partition_constraints_min_constraint_len=1, use_min_gen_set_lowerbound_partition_constraints_limit_num_constraints=1)))
+        vs.append(("guessed-weights+min-gen-set", dict(off, optimize_with_guessed_weights=True, use_min_gen_set_lowerbound=True)))
+    if name == "MinFlowDecompCycles":
+        vs.append(("guessed-weights+min-gen-set+added", dict(off, optimize_with_guessed_weights=True, use_min_gen_set_lowerbound=True, add_min_gen_set_to_given_weights=True)))
+        vs.append(("guessed-weights+free-walk", dict(off, optimize_with_guessed_weights=True, optimize_with_given_weights_num_free_walks=1)))
     pairs = list(itertools.combinations(fl, 2))
     take = pairs if tier == "thorough" else rng.sample(pairs, min(3, len(pairs)))
     for x, y in take:
